@@ -314,7 +314,10 @@ def main(pid, tier, seed, replay=None):
                 for cell in sorted({(h["role"], h["proto"]) for h in rec["hooks"] if h["inside"]}):
                     value_role = cell[0] in ("arg", "ret", "yield") or cell[0].startswith("elem_")
                     cause = ("metaclass_hook_of_a_value_class" if cell[1].startswith("meta.") and value_role else
-                             "getattr_on_lookup_candidate" if cell[0] in ("global_same_name", "caller_local") else "other")
+                             "getattr_on_lookup_candidate" if cell[0] in ("global_same_name", "caller_local")
+                             or (sc.get("kind") == "unresolvable" and cell[0] == "arg"
+                                 and sc.get("proto") in ("getattribute", "getattr", "descriptor", "lazy_property", "meta_class"))
+                             else "other")
                     vio = {"clause": clause, "role": cell[0], "hook": cell[1], "cause": cause}
                     if sc["type"] == "hooks" and sc["role"] in ("global_other",):
                         vio["function_kind"] = sc["kind"]
